@@ -103,6 +103,7 @@ fn observe(c: &Case) -> Obs {
     imports: vec![],
     kind: GraphKind::All,
     opts: Opts::default(),
+    ..Default::default()
   };
   let loader = ScriptedLoader::new(&w);
   let g = build_world(&w, &loader);
